@@ -10,6 +10,8 @@ CHECKS = {
  "C05": "FingerprintAttr.AddTo is proved to append exactly CRC-32(all preceding bytes with the final header length) XOR 0x5354554e (crc32 an uninterpreted function of the byte sequence, with sequence extensionality), and Check is proved to succeed iff the first FINGERPRINT value is 4 bytes and equals that value over Raw[:len-8]; both tag sets. The bit-flip/burst corollary rests on the assumed detection property of the CRC-32 polynomial (not about this code).",
  "C06": "Every typed setter is proved to append exactly the RFC 5389 wire bytes as a function of its argument (family codes, port and address XOR-ed with cookie and transaction ID via xor lemmas proved over bit-vectors, class/number split, 16-bit UNKNOWN-ATTRIBUTES entries) and every getter to return the RFC decoding function of the value bytes, for all values; the add-then-decode-then-get composition itself is argued from these contracts, not machine-checked.",
  "C09": "Each setter is proved to return an error iff the value is unrepresentable (literal limits 513/763/763/763, reason 763, IP length not 4/16, missing default reason, FINGERPRINT present) and, on error, to leave raw bytes, length and attribute list unchanged (frame + Unchanged postcondition); Build is proved, over a ghost record of setter outcomes, to return the first failing setter's error and call no later setter; both tag sets.",
+ "C13": "Every Agent method is proved against the abstract transaction-table specification: return value, new table (as a relation over all ids, unbounded) and the ghost event log (handler invocations with id and error), incl. Collect emitting exactly one timeout for exactly the ids whose deadline is strictly before t (range-over-map by ghost enumeration, loop invariants) and Close one closed event per remaining id; any call sequence follows by the representation invariant AgentInv. Handlers are assumed not to re-enter the agent in this sequential specification.",
+ "C14": "Lock discipline proved for every Agent method: guarded fields (transactions, closed, handler) and the map are only touched while the ghost flag held[agent] is set, Lock only when clear, every exit with it clear, one critical section per method, no handler call inside it (except Close, the property's carve-out); the critical section's effect is C13's contract. Linearizability, race- and deadlock-freedom then follow by the standard single-lock reduction argument, which is assumed, not machine-checked; schedules are not explored.",
  "C19": "MessageType.Value and ReadValue are proved equal to the RFC 5389 figure-3 layout written bit by bit, over 16-bit vectors (the complete domain), and the two spec functions are proved mutually inverse.",
 }
 NA_DEFAULT = "check not built yet (work in progress; see DESIGN.md section 5 for the plan)"
